@@ -246,9 +246,9 @@ Definition is_builtin_type (n : str) : bool :=
   existsb (NM.str_eqb n) [s_Any; s_Null; s_boolean; s_number; s_string; s_date; s_date_and_time; s_time; s_ym_duration; s_dt_duration].
 
 (* Name::new trims every part (str::trim, the characters with the Unicode property White_Space): C10.Model.name_new has the trim.
-   A part is a run of name part characters or one additional symbol; the only such character with that property is U+1680
-   (OGHAM SPACE MARK, inside the name start range 037F-1FFF), so on collected parts the trim drops U+1680 at both ends
-   (C10.Trim.collect_trim_ogham). *)
+   A collected part is a run of name part characters or one additional symbol; none of these has that property (U+1680, OGHAM SPACE
+   MARK, inside the range 037F-1FFF of the grammar, is white space for is_whitespace and since the repair of is_name_start_char no name
+   character), so on collected parts the trim is the identity (C10.Trim.collect_trim_all). *)
 Definition name_of (parts : list str) : str := NM.name_new parts.
 
 (* `while part_count > 0`: a scope key first, then (type-name mode) a built-in type name; the flag says which *)
@@ -262,8 +262,33 @@ Fixpoint search_t (keys : list str) (ty : bool) (parts : list str) (pc : nat) : 
     else search_t keys ty parts k
   end.
 
-(* cs begins with a name start character *)
+(* cs begins with a name start character.  The `item` branch clears till_in (`item` as the variable of an iteration or quantified context:
+   the variable has been read) *)
 Definition name_token (keys : list str) (fl : flags) (cs : str) : lres :=
+  let '(parts, cps, endpos) := NM.collect cs 0 in
+  let from (p : nat) := skipn p cs in
+  if match parts with p :: _ => NM.str_eqb p NM.str_item | [] => false end
+  then RTok (LName NM.str_item) (set_tillin false fl) (from (S (nth 0 cps 0)))
+  else
+    match (if f_tillin fl then NM.index_of NM.str_in parts 0 else None) with
+    | Some (S i) => RTok (LName (name_of (firstn (S i) parts))) (set_tillin false fl) (from (S (nth i cps 0)))
+    | _ =>
+      match search_t keys (f_type fl) parts (length parts) with
+      | Some (pc, false) => RTok (LName (name_of (firstn pc parts))) fl (from (S (nth (pc - 1) cps 0)))
+      | Some (pc, true) => RTok (LType (name_of (firstn pc parts))) (set_type false fl) (from (S (nth (pc - 1) cps 0)))
+      | None =>
+        let name := name_of parts in
+        let rest := from endpos in
+        if f_type fl && is_builtin_type name then RTok (LType name) (set_type false fl) rest
+        else if NM.str_eqb name s_date_and_time || NM.str_eqb name s_duration then RTok (LNameDT name) fl rest
+        else if NM.str_eqb name s_date || NM.str_eqb name s_time then
+          if next_char_in [58%N] rest then RTok (LName name) fl rest else RTok (LNameDT name) fl rest
+        else RTok (LName name) fl rest
+      end
+    end.
+
+(* consume_name before the repair of the `item` branch: `item` is returned before till_in is looked at and the flag stays set *)
+Definition name_token_orig (keys : list str) (fl : flags) (cs : str) : lres :=
   let '(parts, cps, endpos) := NM.collect cs 0 in
   let from (p : nat) := skipn p cs in
   if match parts with p :: _ => NM.str_eqb p NM.str_item | [] => false end
@@ -427,8 +452,8 @@ Definition kw_words : list str :=
   [s_satisfies; s_external; s_function; s_instance; s_between; s_context; s_return; s_every; s_false; s_range; s_null; s_else;
    s_list; s_some; s_then; s_true; s_and; s_for; s_not; s_if; s_in; s_of; s_or].
 
-(* a single word: a name start character, then name part characters, none of them one of the three characters that are
-   white space as well (U+1680, U+180E, U+FEFF), not the spelling of a keyword *)
+(* a single word: a name start character, then name part characters (plain_char: a name part character, which is never white space:
+   U+1680, U+180E, U+FEFF are white space only since the repair of is_name_start_char), not the spelling of a keyword *)
 Definition word_ok (w : str) : bool :=
   match w with
   | c :: _ => NM.is_name_start c && forallb plain_char w && negb (existsb (NM.str_eqb w) kw_words)
